@@ -429,6 +429,29 @@ def check_history(ctx, text, auto_claim, lf, steps, fails, gen=None):
         n0 = len(fails)
         it = iter(steps) if steps is not None else gen(d)
         for step in it:
+            if isinstance(step, dict) and 'blank' in step:
+                # a Whitespace / Newline token in the middle of a run is emptied in place (raw_text = ''): the run is still
+                # ONE run - zero-width blank tokens inside it are skipped, not the end of it
+                done.append(step)
+                inner = [i for i, t in enumerate(d.toks) if isinstance(t, BLANK) and t.raw_text and 0 < i < len(d.toks) - 1
+                         and isinstance(d.toks[i - 1], BLANK) and d.toks[i - 1].raw_text and isinstance(d.toks[i + 1], BLANK) and d.toks[i + 1].raw_text]
+                if inner:
+                    rep = {'check': 'hist', 'text': text, 'auto_claim': auto_claim, 'lf': lf, 'steps': list(done)}
+                    if hasattr(ctx, 'current'):
+                        ctx.current(rep)
+                    try:
+                        d.toks[inner[step['blank'] % len(inner)]].raw_text = ''
+                    except Exception:   # noqa: BLE001 - the token class refuses the empty text: not a case
+                        continue
+                    d.refresh()
+                    n1 = len(fails)
+                    check_get(ctx, d, fails)
+                    for f in fails[n1:]:
+                        f[2].clear(); f[2].update(rep)
+                    ctx.count('history:blank-token-emptied')
+                    if len(fails) > n0:
+                        break
+                continue
             if isinstance(step, dict):
                 # another kind of edit in between (arithmetic on a number in place, a child replaced / inserted / removed):
                 # the spacing accessors of every model it leaves behind must still work on the document's store
@@ -490,6 +513,9 @@ def gen_history(ctx, n):
         strings = new_strings(r, len(FIXED) + 4)
         # phases: widen a region, collapse another - blocks grow past 1.5x and neighbours shrink under half
         for _ in range(n):
+            if r.random() < 0.12:
+                yield {'blank': r.randrange(1000)}
+                continue
             if r.random() < 0.3:
                 c = r.random()
                 op = edits.gen_op(r, d.root, kinds=('numop',) if c < 0.4 else ('rep-setitem', 'rep-setslice', 'view-setitem') if c < 0.65 else OTHER_EDITS)
